@@ -1,6 +1,7 @@
 import Model.Transfer
 import Proofs.F32Ops
 import Proofs.Cbrt
+import Proofs.Expf
 import Mathlib.Data.Nat.Cast.Order.Field
 /-! C18 (and the float->int part of C07 / C13): the fast math helpers are total. `exp2` is the only place where the
 crates convert a float to an integer without a check; the theorem below shows that, for EVERY 32-bit pattern (NaN,
@@ -269,5 +270,48 @@ example : Cbrt.Normal 0x41000000 ∧ (2:ℝ) ^ 3 = F32.toReal 0x41000000 := by
   refine ⟨⟨0, 130, 0, by norm_num, by norm_num, by norm_num, by norm_num, by norm_num⟩, ?_⟩
   rw [F32.toReal_of_decode _ false 8388608 (-20) (by rfl)]
   unfold F32.valR; norm_num
+
+
+/-- **powf accuracy** (fastmath build, both FMA modes): for every positive normal `x`, every finite `y` with `|y| ≤ 80`
+whose true result `x^y` lies in `[1e-35, 1e35]`, `powf` returns a finite value with relative error at most
+`2.5e-4 + 8e-6 |y|`. Kernel-checked: polynomial certificates for `2^f` (Taylor remainder of `exp`) and `log₂ m`
+(atanh series) evaluated on the regenerated coefficients, Horner rounding analysis with computed bounds. -/
+theorem powf_accurate (B : Build) (hB : B.fastmath = true) (x y : Nat) (h1 : 8388608 ≤ x) (h2 : x < 2139095040)
+    (hy : F32.Finite y) (hy80 : |F32.toReal y| ≤ 80)
+    (hv1 : 1 / 10 ^ 35 ≤ (F32.toReal x) ^ (F32.toReal y)) (hv2 : (F32.toReal x) ^ (F32.toReal y) ≤ 10 ^ 35) :
+    ∃ r, MathM.powf B x y = .ok r ∧ F32.Finite r ∧
+      |F32.toReal r - (F32.toReal x) ^ (F32.toReal y)| ≤ (25 / 10 ^ 5 + (8 / 10 ^ 6) * |F32.toReal y|) * (F32.toReal x) ^ (F32.toReal y) := by
+  have : MathM.powf B x y = MathM.powfFast B.fma x y := by unfold MathM.powf; rw [if_pos hB]
+  rw [this]
+  exact Powf.powf_close B.fma x y h1 h2 hy hy80 hv1 hv2
+
+/-- non-vacuity: `x = 2.0`, `y = 3.0` meet the hypotheses -/
+example : 8388608 ≤ 0x40000000 ∧ 0x40000000 < 2139095040 ∧ F32.Finite 0x40400000 ∧ |F32.toReal 0x40400000| ≤ 80 ∧
+    1 / 10 ^ 35 ≤ (F32.toReal 0x40000000) ^ (F32.toReal 0x40400000) ∧ (F32.toReal 0x40000000) ^ (F32.toReal 0x40400000) ≤ 10 ^ 35 := by
+  have h2 : F32.toReal 0x40000000 = 2 := by
+    rw [F32.toReal_of_decode _ false 8388608 (-22) (by rfl)]; unfold F32.valR; norm_num
+  have h3 : F32.toReal 0x40400000 = 3 := by
+    rw [F32.toReal_of_decode _ false 12582912 (-22) (by rfl)]; unfold F32.valR; norm_num
+  refine ⟨by norm_num, by norm_num, ⟨false, 12582912, -22, by rfl⟩, ?_, ?_, ?_⟩
+  · rw [h3]; norm_num
+  · rw [h2, h3]; norm_num
+  · rw [h2, h3]; norm_num
+
+/-- **expf accuracy** (fastmath build, both FMA modes): relative error at most `1e-5` for every finite argument in `[-85, 85]` -/
+theorem expf_accurate (B : Build) (hB : B.fastmath = true) (x : Nat) (hx : F32.Finite x) (h : |F32.toReal x| ≤ 85) :
+    ∃ r, MathM.expf B x = .ok r ∧ F32.Finite r ∧ |F32.toReal r - Real.exp (F32.toReal x)| ≤ (1 / 10 ^ 5) * Real.exp (F32.toReal x) := by
+  have : MathM.expf B x = MathM.expfFast B.fma x := by unfold MathM.expf; rw [if_pos hB]
+  rw [this]
+  exact Expf.expf_close B.fma x hx h
+
+/-- the building blocks, restated for the audit: `exp2` and `log2` against the real functions -/
+theorem exp2_accurate (fm : Bool) (x : Nat) (hx : F32.Finite x) (h : |F32.toReal x| ≤ 124) :
+    ∃ r, MathM.exp2 fm x = .ok r ∧ F32.Finite r ∧ |F32.toReal r - (2:ℝ) ^ (F32.toReal x)| ≤ (1734 / 10 ^ 7) * (2:ℝ) ^ (F32.toReal x) :=
+  Exp2.exp2_close fm x hx h
+
+theorem log2_accurate (fm : Bool) (x : Nat) (h1 : 8388608 ≤ x) (h2 : x < 2139095040) :
+    F32.Finite (MathM.log2 fm x) ∧
+    |F32.toReal (MathM.log2 fm x) - Real.logb 2 (F32.toReal x)| ≤ 114 / 10 ^ 7 + (1 / 16777216) * |Real.logb 2 (F32.toReal x)| :=
+  Log2.log2_close fm x h1 h2
 
 end C18
